@@ -1,6 +1,8 @@
 import MesonModel.DepPolicy.Lemmas
 import MesonModel.DepPolicy.Repeat
 import MesonModel.DepPolicy.RegisterLemmas
+import MesonModel.DepPolicy.CacheLemmas
+import MesonModel.Generated.DepCacheTable
 import MesonModel.DepPolicy.WrapLemmas
 /-
 C10 — Dependencies resolve by the documented fallback policy, from verified sources.
@@ -250,6 +252,60 @@ example : ∃ t', overrideDependency [] "foo".toList dFoo none .both false = som
   decide
 
 end dep
+
+/-! ## Part (c): the persistent cache of system dependencies (`CoreData.deps`) -/
+section cache
+open MesonModel.DepPolicy.Cache
+open MesonModel.Generated
+
+/-- **Obligation on the live source**: the type → option table written in
+`DependencyCache.__calculate_subkey` (re-extracted on every run) is the documented relevance: pkg-config
+results are keyed on `pkg_config_path`, CMake results on `cmake_prefix_path`, the others on neither. -/
+theorem generated_table_is_documented : ∀ t, DepCacheTable.table t = relevant t := by
+  intro t; cases t <;> rfl
+
+/-- **A cache hit is sound, for every history**: after any sequence of option changes, `put`s, `get`s and
+`clear`s on both machines — across any number of configurations — a dependency returned by `get` was
+stored while the search-path option relevant to *its* type had the value it has now. -/
+theorem cache_hit_sound (ops : List Op) (b : Bool) (ident : List Char) (d : CDep)
+    (h : get DepCacheTable.table ((run DepCacheTable.table init ops).1.mc b) ident = some d) :
+    Reusable ((run DepCacheTable.table init ops).1.mc b).paths d := by
+  have ht : DepCacheTable.table = relevant := funext generated_table_is_documented
+  rw [ht] at h ⊢
+  have hinv := run_inv ops init init_inv
+  have hm : Inv ((run relevant init ops).1.mc b) := by
+    cases b
+    · exact hinv.1
+    · exact hinv.2
+  exact get_sound _ hm ident d h
+
+/-- **A cached result is reused only while the search path that produced it is unchanged** (and a change of
+the other option does not invalidate it): for an identifier cached once. -/
+theorem cache_reused_iff_path_unchanged (c : MCache) (i id : List Char) (t : CType) (p' : Paths)
+    (hfresh : slookup i c.subs = none) :
+    get DepCacheTable.table { put DepCacheTable.table c i id t with paths := p' } i =
+      if p'.sel (relevant t) = c.paths.sel (relevant t) then some ({ id := id, type := t, storedAt := c.paths } : CDep) else none := by
+  have ht : DepCacheTable.table = relevant := funext generated_table_is_documented
+  rw [ht]
+  exact fresh_put_get c i id t p' hfresh
+
+/-- the table with the pkg-config entry reading `cmake_prefix_path` -/
+def swappedTable : CType → PathSel
+  | .pkgconfig => .cmake
+  | .cmake => .cmake
+  | .other => .none
+
+/-- … is refuted: a pkg-config result cached under one `pkg_config_path` is served under another -/
+theorem swapped_table_unsound :
+    ∃ (ops : List Op) (d : CDep),
+      get swappedTable (run swappedTable init ops).1.host "foo".toList = some d ∧
+      ¬ Reusable (run swappedTable init ops).1.host.paths d := by
+  refine ⟨[.setPkg false ["/a".toList], .put false "foo".toList "d1".toList .pkgconfig, .setPkg false ["/b".toList]],
+          { id := "d1".toList, type := .pkgconfig, storedAt := ⟨["/a".toList], []⟩ }, by decide, ?_⟩
+  unfold Reusable
+  decide
+
+end cache
 
 /-! ## Part (b): wrap acquisition -/
 section wrap
